@@ -252,15 +252,48 @@ def function_yaml(name, k, d, t, g, explicit):
                                        {"decl": "(double a0)", "function_suffix": "_gd"}]
             decl = decl.replace("int a0", "double a0")
         node["decl"] = decl
-        if explicit is True and k > 1:
-            node.setdefault("format", {})["function_suffix"] = "_ov%s" % "abc"[i]
-        if explicit is True and i == k - 1 and d:
+        if explicit in (True, "blank") and k > 1:
+            # "blank": the first overload is given an explicitly empty suffix (it keeps the plain name)
+            node.setdefault("format", {})["function_suffix"] = "" if (explicit == "blank" and i == 0) else "_ov%s" % "abc"[i]
+        if explicit in (True, "blank") and i == k - 1 and d:
             node["default_arg_suffix"] = ["_n%d" % j for j in range(d + 1)]
+            if explicit == "blank" and k == 1:
+                node["default_arg_suffix"][0] = ""
         if explicit == "partial" and i == k - 1 and d:
             # a suffix list that names only the shortened calls; the full call keeps its generated suffix
             node["default_arg_suffix"] = ["_n%d" % j for j in range(d)]
         nodes.append(node)
     return nodes
+
+
+def predicted_names(scope, atoms, idx, spec):
+    """For structures in which the user names every suffix: the documented templates give the names outright.
+    C: {C_prefix}{C_name_scope}{underscore_name}{function_suffix}{template_suffix}; Fortran specific:
+    {F_name_scope}{underscore_name}{function_suffix}{template_suffix} with generic suffixes appended."""
+    k, d, t, g, explicit = spec
+    if explicit not in (True, "blank") or g == 3:
+        return None
+    f = atoms["f%d" % idx]
+    cscope = {"lib": "", "ns": atoms["ns"] + "_", "cls": atoms["ns"] + "_" + atoms["cls"] + "_"}[scope]
+    fscope = atoms["cls"] + "_" if scope == "cls" else ""
+    cn, fn = set(), set()
+    for i in range(k):
+        if i == k - 1 and d:
+            sufs = ["_n%d" % j for j in range(d + 1)]
+            if explicit == "blank" and k == 1:
+                sufs[0] = ""
+        elif k > 1:
+            sufs = ["" if (explicit == "blank" and i == 0) else "_ov%s" % "abc"[i]]
+        else:
+            sufs = [""]
+        tsuf = ["_ti", "_td"] if (t and i == 0) else [""]
+        gsuf = ["_gf", "_gd"] if (g == 2 and i == 0 and not t) else [""]
+        for s_ in sufs:
+            for ts in tsuf:
+                cn.add("LIB_" + cscope + f + s_ + ts)
+                for gs in gsuf:
+                    fn.add(fscope + f + s_ + gs + ts)
+    return cn, fn
 
 
 def expected_counts(k, d, t, g):
@@ -287,6 +320,14 @@ def build_library(atoms, scope, funcs):
         lib["declarations"] = decls
     elif scope == "ns":
         lib["declarations"] = [{"decl": "namespace %s" % atoms["ns"], "declarations": decls}]
+    elif scope == "flat":
+        # the same names at library level and in a namespace that is flattened into the library's Fortran module
+        import copy as _copy
+        lib["declarations"] = _copy.deepcopy(decls) + [{"decl": "namespace %s" % atoms["ns"], "options": {"F_flatten_namespace": True},
+                                                        "declarations": decls}]
+        # the Lua module registers namespace members under their bare names (known finding 'lua-namespace-same-name',
+        # replayed on every run); this scope is about the Fortran module, so Lua is left out of it
+        lib["options"]["wrap_lua"] = False
     else:
         # methods of a class inside a namespace
         lib["declarations"] = [{"decl": "namespace %s" % atoms["ns"], "declarations": [
@@ -390,10 +431,23 @@ def check_structure(scope, funcs):
         k, d, t, g, explicit = spec
         fname = atoms["f%d" % idx].lower()
         want_c, want_f = expected_counts(k, d, t, g)
+        want_f1 = want_f
+        if scope == "flat":
+            want_c, want_f = 2 * want_c, 2 * want_f
         mine_c = [n for n in names["c"] if fname in n.lower() and "bufferify" not in n]
         if len(mine_c) != want_c:
             return "C++ name %s has %d callable signatures but %d C entry points %r" % (atoms["f%d" % idx], want_c, len(mine_c), mine_c[:8]), None
+        pred = predicted_names(scope, atoms, idx, spec) if scope != "flat" else None
+        if pred is not None and not (t and d and k == 1):
+            if set(mine_c) != pred[0]:
+                return "C++ name %s: the user-given suffixes predict the C names %r, emitted %r" % (
+                    atoms["f%d" % idx], sorted(pred[0]), sorted(mine_c)), None
         mine_f = [n for n in names["f_spec"] if fname in n]
+        if pred is not None and not (t and d and k == 1):
+            direct = {n for n in names["f_iface"] if fname in n and not n.startswith("c_") and "bufferify" not in n}
+            if ({n for n in mine_f} | direct) != {n.lower() for n in pred[1]}:
+                return "C++ name %s: the user-given suffixes predict the Fortran specifics %r, emitted %r" % (
+                    atoms["f%d" % idx], sorted(pred[1]), sorted(mine_f)), None
         # functions that need no Fortran wrapper are bound directly through their interface
         mine_i = [n for n in names["f_iface"] if fname in n and "bufferify" not in n]
         nspec = len(mine_f) if mine_f else 0
@@ -410,8 +464,13 @@ def check_structure(scope, funcs):
             for p in procs:
                 if fname not in p:
                     return "generic interface %s lists %s, a specific of another name" % (gname, p), None
-            if want_f > 1 and scope != "cls" and gname == fname and len(procs) != want_f:
+            if want_f > 1 and scope not in ("cls", "flat") and gname == fname and len(procs) != want_f:
                 return "generic interface %s lists %d specifics, the C++ name has %d callable signatures" % (gname, len(procs), want_f), None
+            if scope == "flat" and want_f1 > 1 and len(procs) != want_f1:
+                return "generic interface %s lists %d specifics, its C++ name has %d callable signatures" % (gname, len(procs), want_f1), None
+        if scope == "flat" and want_f1 > 1 and len(gens) != 2:
+            return "the C++ names %s and %s::%s (flattened namespace) have %d generic interfaces, expected one each" % (
+                atoms["f%d" % idx], atoms["ns"], atoms["f%d" % idx], len(gens)), None
     # templates and parametricity
     t1 = sorted(template_of(n, results[0][0]) for n in names["c"])
     t2 = sorted(template_of(n, results[1][0]) for n in results[1][1]["c"])
@@ -506,11 +565,16 @@ def structures(tier):
                         continue
                     if g == 3 and k == 1 and d:
                         continue        # rank generics combined with default arguments on one function: not claimed
-                    for ex in (False, True, "partial"):
+                    for ex in (False, True, "partial", "blank"):
                         if ex == "partial" and not d:
+                            continue
+                        if ex == "blank" and not (k > 1 or d):
                             continue
                         single.append((k, d, t, g, ex))
     out = []
+    for s in single:
+        if s[4] is False and not (s[2] and s[1] and s[0] == 1):
+            out.append(("flat", [s]))
     for scope in ("lib", "ns", "cls"):
         for s in single:
             if scope == "cls" and s[3]:
@@ -631,6 +695,16 @@ def main():
             v0 = confirm_struct({"scope": "lib", "funcs": [[1, 0, 0, 3, False], [1, 0, 0, 3, False]], "cex_atoms": {"f0": "c", "f1": "ga"}})
             if v0:
                 rep.known_finding("%s (%s)" % (k["what_fails"], v0[:120]))
+        elif k["key"] == "lua-namespace-same-name":
+            lib0 = build_library(ATOMS1, "flat", [(1, 0, 0, 0, False)])
+            lib0["options"]["wrap_lua"] = True
+            try:
+                n0 = emitted_names(pipeline.run(lib0))
+                d0 = [d for tab, lst in n0["lua"].items() for d in dups(lst)]
+            except Exception:
+                d0 = []
+            if d0:
+                rep.known_finding("%s (luaL_Reg lists %r twice)" % (k["what_fails"], d0[0]))
         elif k["key"] == "reserved-method-name":
             v0 = confirm_struct({"scope": "cls", "funcs": [[1, 0, 0, 0, False]], "cex_atoms": {"cls": "a", "f0": "eq"}})
             if v0:
